@@ -612,7 +612,7 @@ fn run_dec_lengths(out: &mut Out, cfg: &Cfg) {
 
 /// legit, element-heavy values: the allocation per input byte is what the decoders need for their result
 fn run_dec_legit(out: &mut Out, cfg: &Cfg) {
-    let sizes: &[usize] = if cfg.thorough { &[1000, 10_000, 100_000, 1_000_000] } else { &[1000, 20_000] };
+    let sizes: &[usize] = if cfg.thorough { &[1000, 10_000, 100_000, 1_000_000] } else { &[1000, 8_000] };
     for bo in ORDERS {
         for &n in sizes {
             // n bytes
